@@ -55,6 +55,8 @@ func flatten(t types.Type) []string {
 			return []string{SInt}
 		case u.Info()&types.IsFloat != 0:
 			return []string{SInt} // opaque: floats are never interpreted
+		case u.Kind() == types.Invalid:
+			return []string{SInt} // unused component of a range tuple
 		}
 	case *types.Pointer, *types.Map, *types.Chan, *types.Signature:
 		return []string{SInt}
@@ -347,4 +349,38 @@ func sanitize(s string) string {
 		}
 	}
 	return b.String()
+}
+
+// strOffsetIdx lists the component indices of t that are string offsets. A fresh
+// (unknown) string value is always created with offset 0: every string value has
+// such a representation, and solvers match (select a k) far better than
+// (select a (+ o k)).
+func strOffsetIdx(t types.Type) map[int]bool {
+	out := map[int]bool{}
+	var walk func(t types.Type, base int) int
+	walk = func(t types.Type, base int) int {
+		switch u := t.Underlying().(type) {
+		case *types.Basic:
+			if u.Info()&types.IsString != 0 {
+				out[base+1] = true
+				return 3
+			}
+			return 1
+		case *types.Struct:
+			n := 0
+			for i := 0; i < u.NumFields(); i++ {
+				n += walk(u.Field(i).Type(), base+n)
+			}
+			return n
+		case *types.Tuple:
+			n := 0
+			for i := 0; i < u.Len(); i++ {
+				n += walk(u.At(i).Type(), base+n)
+			}
+			return n
+		}
+		return len(flatten(t))
+	}
+	walk(t, 0)
+	return out
 }
